@@ -59,7 +59,9 @@ lp_feasibility_set_t* lp_feasibility_set_new_internal(size_t size) {
 
 lp_feasibility_set_t* lp_feasibility_set_new_from_intervals(lp_interval_t* intervals, size_t intervals_size) {
   lp_feasibility_set_t* result = lp_feasibility_set_new_internal(intervals_size);
-  memcpy(result->intervals, intervals, sizeof(lp_interval_t)*intervals_size);
+  if (intervals_size > 0) {
+    memcpy(result->intervals, intervals, sizeof(lp_interval_t)*intervals_size);
+  }
   result->size = intervals_size;
   return result;
 }
